@@ -13,6 +13,16 @@ cp -r /repo/src /repo/Cargo.toml /repo/Cargo.lock "$S/repo/"
 [ -d /repo/tests ] && cp -r /repo/tests "$S/repo/"
 ( cd "$S/repo" && git init -q . && { git apply --whitespace=nowarn "$PATCH" 2>/dev/null || patch -p1 -s -F 3 --no-backup-if-mismatch < "$PATCH"; } ) || { echo "PATCH-DOES-NOT-APPLY $PATCH"; exit 3; }
 RC=0
+if [ $# -gt 1 ]; then
+  # all requested checks in one process; per check: header line, then its findings
+  TAU_REPO="$S/repo" TAU_OUT="$S/out" TAU_FACTS_DIR="$S/facts" "$V/check" MULTI "$@" > "$S/multi.out" 2>&1
+  awk -v L="${TRY_LINES:-12}" -v R="$S/repo/" '
+    /^== C[0-9]+ exit=/ { print; for (i = 1; i <= n && i <= L; i++) print buf[i]; n = 0; next }
+    /VIOLATED|LOST|VIOLATION|KNOWN-FINDING|BUILD-ERROR|Traceback/ { gsub(R, ""); buf[++n] = $0 }
+  ' "$S/multi.out"
+  grep -q "^== C[0-9]* exit=[^0]" "$S/multi.out" && RC=1
+  exit $RC
+fi
 for C in "$@"; do
   OUTP=$(TAU_REPO="$S/repo" TAU_OUT="$S/out" TAU_FACTS_DIR="$S/facts" "$V/check" "$C" 2>&1)
   R=$?
